@@ -278,3 +278,46 @@ def s_xref(tier='quick'):
     sch_a = Schema(ua, [person], prefixes={'m': ub}, imports=[(ub, 'b.xsd')])
     sc = Scenario('S-xref', {'a.xsd': sch_a, 'b.xsd': sch_b}, 'a.xsd', [ua, ub])
     return sc, Info(schemas={'a.xsd': sch_a, 'b.xsd': sch_b}, subjects=[('a.xsd', person)], anon=[('b.xsd', remote)], simple=[], bases={}, distinct=(ua, ub))
+
+
+OP_NAMES = ['GetQuote', 'getQuote', 'get_quote', 'Get-Quote', 'GETQuote']
+EL_NAMES = ['GetQuoteRequest', 'getQuoteRequest', 'get_quote_request']
+
+
+def w_ops(tier='quick', headers=0, other_ns=False):
+    """WSDL with two operations; the first has symbolic operation name style, element name style, part name, parts=
+    presence and output presence; `headers` header parts are bound on its input"""
+    opn = Selector('op_name', OP_NAMES if tier == 'thorough' else OP_NAMES[:4])
+    eln = Selector('el_name', EL_NAMES)
+    partn = Selector('part_name', ['parameters', 'body'])
+    has_out = Selector('has_output', [True, False])
+    svc = Selector('service_name', ['OrdersService', 'Orders'])
+    sels = [opn, eln, partn, has_out, svc]
+    els = [GEl(eln, content=Seq([El('symbol', 'xs:string')])), body_el('GetQuoteResponse'), body_el('PingRequest'), body_el('PingResponse')]
+    hdr_els = []
+    hparts = []
+    for i in range(headers):
+        hn = ['AuthHeader', 'traceContext'][i]
+        hdr_els.append(GEl(hn, content=Seq([El('token', 'xs:string')])))
+        hparts.append((['auth', 'trace'][i], 'tns:' + hn))
+    els += hdr_els
+    req_ref = smap(lambda e: 'tns:' + e, eln.sym())
+    if headers == 0:
+        parts_attr = Selector('parts_attr', [ABSENT, 'yes'])
+        sels.append(parts_attr)
+        bparts = smap(lambda pa, pn: ABSENT if pa == ABSENT else pn, parts_attr.sym(), partn.sym())
+    else:
+        parts_attr = None
+        bparts = partn
+    in_parts = [(partn, req_ref)] + hparts
+    msgs = [Msg('GetQuoteIn', in_parts), Msg('GetQuoteOut', [('parameters', 'tns:GetQuoteResponse')]),
+            Msg('PingIn', [('parameters', 'tns:PingRequest')]), Msg('PingOut', [('parameters', 'tns:PingResponse')])]
+    op1 = Op(opn, 'tns:GetQuoteIn', 'tns:GetQuoteOut', body_parts=bparts, headers=[h[0] for h in hparts],
+             action='http://example.com/orders/v1/GetQuote', has_output=(has_out.var == 0))
+    op2 = Op('Ping', 'tns:PingIn', 'tns:PingOut')
+    sch = Schema(NSW, els, prefixes={})
+    w = Wsdl(NSW, sch, msgs, [op1, op2], service=svc, location='http://example.com/orders')
+    sc = Scenario('W-ops-h%d' % headers, {'svc.wsdl': w.tree()}, 'svc.wsdl', sels)
+    return sc, Info(wsdl=w, opn=opn, eln=eln, partn=partn, has_out=has_out, svc=svc, headers=hparts, parts_attr=parts_attr,
+                    ops=[dict(name=opn, body_el=eln, headers=[h[1].split(':')[1] for h in hparts], has_output=has_out, out_el='GetQuoteResponse'),
+                         dict(name='Ping', body_el='PingRequest', headers=[], has_output=True, out_el='PingResponse')])
